@@ -17,6 +17,7 @@
 //	i:<name>:<req>:<mask>:<attrs>   an import of the preceding v, in client.Requirements order
 //	m:<pkg>:<req>:<vers>            client.MatchingVersions(pkg, req): `!` error, `_` none, `ver,ver,…` in the client's order
 //	s:<req>:<vers>                  semver.NPM.ParseConstraint(req): `!` error, else the universe's version strings it matches
+//	x:<name>:<suffix>               for a dependency name containing `>`: the part after the last `>` (bundles)
 //
 // mask/attrs are the two parts of internal/attr.Set (dep.Type and
 // version.AttrSet): the bit mask of the negative keys and the keyed values
@@ -391,6 +392,19 @@ func NpmEncode(u *NpmUniverse) (table, body string, ok bool) {
 		delete(set, r)
 	}
 	var rest []string
+	var sfxs []string
+	for _, v := range n.Versions {
+		for _, d := range v.Imports {
+			if i := strings.LastIndex(d.Name, ">"); i >= 0 {
+				sfxs = append(sfxs, d.Name[i+1:])
+			}
+		}
+	}
+	for _, sfx := range sfxs {
+		if !isReserved(sfx) {
+			set[sfx] = true
+		}
+	}
 	for s := range set {
 		rest = append(rest, s)
 	}
@@ -461,7 +475,25 @@ func NpmEncode(u *NpmUniverse) (table, body string, ok bool) {
 		}
 		recs = append(recs, fmt.Sprintf("s:%s:%s", t.Ix(r), val))
 	}
+	seenX := map[string]bool{}
+	for _, v := range n.Versions {
+		for _, d := range v.Imports {
+			if i := strings.LastIndex(d.Name, ">"); i >= 0 && !seenX[d.Name] {
+				seenX[d.Name] = true
+				recs = append(recs, fmt.Sprintf("x:%s:%s", t.Ix(d.Name), t.Ix(d.Name[i+1:])))
+			}
+		}
+	}
 	return t.Encode(), strings.Join(recs, ";"), true
+}
+
+func isReserved(s string) bool {
+	for _, r := range Reserved {
+		if r == s {
+			return true
+		}
+	}
+	return false
 }
 
 func sameUniverse(a, b *NpmUniverse) bool {
@@ -546,7 +578,7 @@ func NpmDecode(table, body string) (*Table, *NpmUniverse, error) {
 			}
 			v := &u.Versions[len(u.Versions)-1]
 			v.Imports = append(v.Imports, NpmImport{Name: name, Req: req, Type: AttrSet{mask, attrs}})
-		case f[0] == "m" && len(f) == 4, f[0] == "s" && len(f) == 3:
+		case f[0] == "m" && len(f) == 4, f[0] == "s" && len(f) == 3, f[0] == "x" && len(f) == 3:
 		default:
 			return nil, nil, fmt.Errorf("bad record %q", rec)
 		}
